@@ -180,7 +180,8 @@ class Rule(object):
         uri = uri_reference(val)
         try:
             validator.validate(uri)
-            is_valid = True
+            # An empty host (e.g. "http://:80/") counts as present for rfc3986
+            is_valid = bool(uri.host)
         except (InvalidComponentsError, MissingComponentError, UnpermittedComponentError) as ex:
             logger.debug(ex)
         return is_valid
